@@ -1,3 +1,4 @@
+import LunarVerif.Generated.Constants
 import LunarVerif.Proofs.C02
 import LunarVerif.Proofs.C02Sched
 /-!
@@ -350,5 +351,27 @@ example : (grun exC (G.init exC) schedRespErr).s.members 0 = [] ∧
     ((grun exC (G.init exC) schedRespErr).th 1).map (fun t => (t.todo.length, t.loc.clr 0)) = some (0, true) ∧
     ((grun exC (G.init exC) schedRespErr).th 2).map (fun t => (t.todo.length, t.loc.clr 0)) = some (0, true) ∧
     (grun exC (G.init exC) schedRespErr).s.rems 0 ⟨11, 1⟩ = 1 := by decide
+
+/-! ## Defaults (tie to the source; `Generated/Constants.lean` is rewritten from /repo by `harness/go/cmd/extract`
+    on every run, so this `decide` re-checks what the code says now) -/
+
+/-- The expiry and GC interval the model uses for a field that is left out are `defaultRequestExpiration` and
+    `defaultGCInterval` of quota.type.go; each setting looks at its own field only (configured: that many seconds);
+    both are positive (a zero GC interval would never tick, a zero expiry would free the slots of running
+    transactions at the next tick). -/
+theorem defaults_match_source :
+    (defaultRequestExpiration : Int) = Generated.Const.concurrentDefaultRequestExpiration
+    ∧ (defaultGCInterval : Int) = Generated.Const.concurrentDefaultGCInterval
+    ∧ (requestExpiration 0 : Int) = Generated.Const.concurrentDefaultRequestExpiration
+    ∧ (gcInterval 0 : Int) = Generated.Const.concurrentDefaultGCInterval
+    ∧ (∀ n, 0 < n → requestExpiration n = n * 1000000000 ∧ gcInterval n = n * 1000000000)
+    ∧ (∀ n, 0 < requestExpiration n ∧ 0 < gcInterval n) := by
+  refine ⟨by decide, by decide, by decide, by decide, ?_, ?_⟩
+  · intro n hn
+    have h : (n == 0) = false := by simp; omega
+    simp [requestExpiration, gcInterval, h]
+  · intro n
+    unfold requestExpiration gcInterval defaultRequestExpiration defaultGCInterval
+    constructor <;> split <;> simp_all <;> omega
 
 end LunarVerif.C02
